@@ -222,8 +222,8 @@ def gen_ident(rng, n):
 
 
 DTS = [(np.array([1., 1.]), 0, 0), (np.array([1, 1]), 0, 0), (np.array([1., 2.]), 2, 2),
-       (np.array([1.]), 3, 3), (np.array([0., 1.]), 4, 4), (np.array([-0., 1.]), 5, 4)]
-OMS = [(np.array([1., 2.]), 0, 0), (np.array([1, 2]), 1, 0), (np.array([1., 3.]), 2, 2)]
+       (np.array([1.]), 3, 3), (np.array([0., 1.]), 4, 4), (np.array([-0., 1.]), 4, 4)]
+OMS = [(np.array([1., 2.]), 0, 0), (np.array([1, 2]), 0, 0), (np.array([1., 3.]), 2, 2)]
 
 
 def gen_extend(rng, n):
@@ -330,7 +330,9 @@ def gen_concat(rng, n):
             arr2[arr2 == 0] = -0.0
             b1 = ff.Basis(arr2, btype='Pauli')
             b1.btype = 'Pauli'
-            return [(b0, 0, 0), (b1, 1, 0), (ff.Basis.ggm(2), 2, 2)]
+            # (Basis.ggm(2) has the same elements as Basis.pauli(1))
+            rot = ff.Basis(np.array([np.eye(2), (X + Z)/np.sqrt(2), Y, (X - Z)/np.sqrt(2)])/np.sqrt(2))
+            return [(b0, 0, 0), (b1, 0, 0), (ff.Basis.ggm(2), 0, 0), (rot, 2, 2)]
         return [(ff.Basis.ggm(d), 3, 3)]
 
     def ham(d, ndt):
